@@ -71,9 +71,10 @@ def base_slots():
         "asg1c": B("ASSIGN", ID("gflag"), ("NOT", ID("gflag"))),
         "guard2": B("AND", q("FORALL", "qi", B("GE", arr(ID("garr"), ID("qi")), I(0))), B("GE", ID("lclk"), I(1))),
         "asg2": B("ASSIGN", dot(ID("gpair"), "fb", 1), ("INLINE_IF", ID("gflag"), ("BOOL", 1), B("GT", ID("lcnt"), I(1)))),
-        "guard3": q("EXISTS", "qe", B("EQ", arr(ID("garr"), ID("qe")), ID("pid"))),
+        "guard3": q("EXISTS", "qe", B("AND", B("EQ", ID("qe"), ID("pid")), B("GE", arr(ID("garr"), ID("qe")), I(0)))),
         "asg3a": B("ASSIGN", ID("lclk"), I(0)),
         "asg3b": B("ASSIGN", ID("shared"), B("PLUS", B("MIN", ID("lcnt"), ID("gcnt")), ("UNARY_MINUS", ID("pid")))),
+        "asg3c": B("ASSIGN", ID("lcnt"), q("SUM", "qs", B("MULT", ID("qs"), arr(ID("garr"), ID("qs"))))),
         "sync4_idx": I(0),
         "arg1": I(1),
         "arg2": B("MINUS", ID("N"), I(1)),
@@ -93,7 +94,7 @@ BLOCKS = [
     ("l0name", "L0"), ("inv0", "{inv0}"), ("l1name", "L1"), ("l2name", "L2"),
     ("select1", "sel : id_t"), ("guard1", "{guard1}"), ("sync1", "gch[{sync1_idx}]!"), ("assign1", "{asg1a}, {asg1b}, {asg1c}"),
     ("guard2", "{guard2}"), ("sync2", "gbc?"), ("assign2", "{asg2}"),
-    ("guard3", "{guard3}"), ("assign3", "{asg3a}, {asg3b}"),
+    ("guard3", "{guard3}"), ("assign3", "{asg3a}, {asg3b}, {asg3c}"),
     ("t2name", "T2"), ("m0name", "M0"), ("sync4", "gch[{sync4_idx}]?"), ("sync5", "gbc!"),
     ("system", "P1 = T({arg1}, gcnt);\nP2 = T({arg2}, gcnt);\nQ = T2();\nsystem P1, P2, Q;"),
     ("query1", "A[] {q1}"), ("query2", "E<> {q2}"), ("query3", "A[] {q3}"),
@@ -120,7 +121,7 @@ assert SKELETON.count("\x01") == len(BLOCKS)
 
 # identifiers a user chose in the base model (each is unique in the whole model, so a token-level replacement is consistent)
 USER_IDS = ["N", "id_t", "pair_t", "fa", "fb", "gcnt", "gflag", "garr", "gpair", "gclk", "gch", "gbc", "inc", "v", "r", "tmp", "pos",
-            "T", "pid", "shared", "lclk", "lcnt", "L0", "L1", "L2", "sel", "qi", "qe", "T2", "M0", "P1", "P2", "Q"]
+            "T", "pid", "shared", "lclk", "lcnt", "L0", "L1", "L2", "sel", "qi", "qe", "qs", "T2", "M0", "P1", "P2", "Q"]
 # `v` is declared in both functions: two entities with one name; both are renamed together (still a consistent renaming)
 SOFT = ["A", "U", "W", "R", "E", "M", "sup", "inf", "bounds", "simulation"]
 FRESH = "zq_fresh7"
@@ -128,6 +129,21 @@ FRESH = "zq_fresh7"
 # ("$Keywords_are_not_allowed_here"): for entities named in a <name> element those four are reserved names.
 NAMED_IN_XML = {"T", "T2", "L0", "L1", "L2", "M0"}
 RESERVED_AS_XML_NAME = {"sup", "inf", "bounds", "simulation"}
+
+
+# Binder-like entities and the text of their scope (block names; for function parameters/locals the line of the function).
+# Renaming such an entity to the name of an *outer* entity that is not used inside the scope gives a model in which the inner
+# declaration shadows the outer one; renaming it (back) to a fresh name is a meaning-preserving rewrite of that model.
+SCOPED = {"qi": ["guard2"], "qe": ["guard3"], "qs": ["assign3"], "sel": ["select1", "guard1", "sync1", "assign1"],
+          "tmp": ["fn:inc"], "r": ["fn:inc"], "pid": ["t1params", "t1decl", "inv0", "select1", "guard1", "sync1", "assign1", "guard2", "sync2",
+                                              "assign2", "guard3", "assign3"],
+          "shared": ["t1params", "t1decl", "inv0", "select1", "guard1", "sync1", "assign1", "guard2", "sync2", "assign2", "guard3", "assign3"],
+          "lcnt": ["t1decl", "inv0", "select1", "guard1", "sync1", "assign1", "guard2", "sync2", "assign2", "guard3", "assign3", "query3"]}
+# the grammar gives parameters the production `Type NonTypeId`: a parameter cannot carry the name of a visible type, so for
+# parameters the typedef names are not in the alphabet of admissible names
+PARAMETERS = {"pid", "shared", "r"}
+TYPE_NAMES = {"id_t", "pair_t"}
+OUTER = ["N", "id_t", "pair_t", "gcnt", "gflag", "garr", "gpair", "gclk", "gch", "gbc", "inc", "pos", "T2"]
 
 
 # ---- rejected variants: (name, slot overrides, raw block overrides) ----------------------------------------------
@@ -267,6 +283,48 @@ def rewrites(slots, raw, tier):
                 s3 = dict(slots)
                 s3[sname] = replace_at(t, p, lambda x: a)
                 yield ("alias:" + get_at(t, p)[0], "%s%s" % (sname, list(p)), render_blocks(s3, raw), None)
+    # r2': a scoped entity named like an outer entity (shadowing) vs. the same entity under its own fresh name
+    names = [n for n, _ in BLOCKS]
+    for ent, scope in (SCOPED.items() if not raw else []):      # only where every declaration of the model is intact
+        idxs, fnline = [], None
+        for sc in scope:
+            if sc.startswith("fn:"):
+                fnline = sc[3:]
+            else:
+                idxs.append(names.index(sc))
+        scope_toks = set()
+        for bi in idxs:
+            scope_toks |= set(tok for _, _, tok in tokens(base[bi]))
+        glines = base[0].split("\n")
+        if fnline:
+            li = [k for k, ln in enumerate(glines) if (" %s(" % fnline) in ln]
+            if not li:
+                continue
+            scope_toks |= set(tok for _, _, tok in tokens(glines[li[0]]))
+        if ent not in scope_toks:
+            continue
+        for outer in OUTER:
+            if outer in scope_toks or (ent in ("pid", "shared", "lcnt") and outer in ("T2",)):
+                continue
+            if ent in PARAMETERS and outer in TYPE_NAMES:
+                continue
+            b2 = list(base)
+
+            def ren(text):
+                out, pos = [], 0
+                for a, b, tok in tokens(text):
+                    if tok == ent:
+                        out.append(text[pos:a] + outer)
+                        pos = b
+                out.append(text[pos:])
+                return "".join(out)
+            for bi in idxs:
+                b2[bi] = ren(base[bi])
+            if fnline:
+                gl = list(glines)
+                gl[li[0]] = ren(gl[li[0]])
+                b2[0] = "\n".join(gl)
+            yield ("rename:shadowing", "%s->%s" % (ent, outer), b2, ("shadow", ent, outer))
     # r2: renaming, token level over all blocks
     toks_per_block = [tokens(b) for b in base]
     present = set(tok for tl in toks_per_block for _, _, tok in tl)
@@ -391,6 +449,9 @@ def model_shard(arg):
     if res[0].get("died"):
         raise RuntimeError("base model %s kills the worker" % vname)
     for (fam, site, blocks, ren), r in zip(rws, res[1:]):
+        if ren is not None and ren[0] == "shadow":
+            judge_shadow(part, vname, res[0], r, fam, site, blocks, base_blocks, ren)
+            continue
         part.count()
         part.nontrivial_case("%s|%s|%s" % (vname, fam, site))
         rp = {"op": "xml", "buf": doc_of(blocks), "want": WANT, "base": doc_of(base_blocks), "variant": vname, "family": fam, "site": site}
@@ -409,6 +470,29 @@ def model_shard(arg):
         part.violation(sig, "%s model, rewrite %s at %s changes %s: base=%s rewritten=%s" %
                        (vname, fam, site, d[0], json.dumps(d[1])[:160], json.dumps(d[2])[:160]), rp)
     return part.result()
+
+
+def judge_shadow(part, vname, base_resp, r, fam, site, blocks, base_blocks, ren):
+    """variant: the scoped entity `ent` carries the name of the outer entity `outer`.  Expected: the base model's result
+    with ent spelled outer (the two stay distinguishable through their declared types), plus shadowing warnings."""
+    _, ent, outer = ren
+    part.count()
+    part.nontrivial_case("%s|%s|%s" % (vname, fam, site))
+    rp = {"op": "xml", "buf": doc_of(blocks), "want": WANT, "base": doc_of(base_blocks), "variant": vname, "family": fam, "site": site}
+    if engine.check_crash(part, PID, r, "%s %s %s" % (vname, fam, site), rp):
+        return
+    exp = canon(base_resp, (outer, ent))        # spell ent as outer in the base result
+    got = canon(r, None)
+    for c in (exp, got):
+        c["warnings"] = [w for w in c["warnings"] if "hadows" not in w]
+    d = first_difference(exp, got)
+    if d is None:
+        part.outcome("rename:invariant")
+        return
+    part.outcome("rename:verdict-changed")
+    what = d[0].split("/")[1].split("[")[0] if "/" in d[0] else d[0]
+    part.violation("%s:%s:%s" % (fam, site, what), "%s model: with the scoped declaration %s named like the outer %s the result differs from the "
+                   "same model with a fresh name at %s: fresh=%s shadowing=%s" % (vname, ent, outer, d[0], json.dumps(d[1])[:160], json.dumps(d[2])[:160]), rp)
 
 
 def signature(fam, site, ren, what):
